@@ -6,6 +6,8 @@ CONSTANTS
   AliasTargets = {}
   MaxNum = 3
   MaxOps = 8
+  Order <- OrderReal
+  Jumps = TRUE
 VIEW View
 PROPERTY ReachBackLink
 CHECK_DEADLOCK FALSE
